@@ -321,6 +321,29 @@ def compare_adaptive(c, o, q):
     return None, False
 
 
+def hnw_reference_final(c, o):
+    """Search aid (floats, not a proof): the documented two-stage proposal with the second stage evaluated at
+    (t0 + dt0, y0 + dt0 f0) on the harness's own copy of the vector field; None if not finite."""
+    try:
+        n, t0, dt0 = c["n"], c["t0"], o["dt0"]
+        y0, f0 = c["y0"], o["f0"]
+        y1 = [y0[i] + dt0 * f0[i] for i in range(n)]
+        w = [y1[i] - c["m"][i] for i in range(n)]
+        f1 = [c["b"][i] + sum(c["A"][i][j] * w[j] for j in range(n)) + c["c"][i] * w[i] * w[i] + c["g"][i] * (t0 + dt0 - c["tc"])
+              for i in range(n)]
+        scale = [c["atol"] + abs(y0[i]) * c["rtol"] for i in range(n)]
+        d1 = o["d1"]
+        d2 = math.sqrt(sum(((f1[i] - f0[i]) / scale[i]) ** 2 for i in range(n))) / dt0
+        if d1 <= 1e-15 and d2 <= 1e-15:
+            dt1 = max(1e-6, dt0 * 1e-3)
+        else:
+            dt1 = (0.01 / max(d1, d2)) ** (1.0 / (c["rate"] + 1.0))
+        out = min(100.0 * dt0, dt1)
+        return out if math.isfinite(out) else None
+    except (OverflowError, ZeroDivisionError, ValueError, KeyError, TypeError):
+        return None
+
+
 def compare_simple(c, o, q, result):
     """Returns (mismatch or None, tie: bool)."""
     b, dt0, ok_u0, ok_f0 = q
@@ -472,6 +495,7 @@ def main():
     ck.notes.append(f"model evaluation {round(_time.time() - _t, 1)}s")
     _t = _time.time()
     bad_corr = None
+    failing = []
     n_cmp = n_tie = n_over = n_vfnf = n_evalfail = 0
     for i, (c, r) in enumerate(zip(cases, ires)):
         key = json.dumps(c, sort_keys=True)
@@ -531,6 +555,11 @@ def main():
         n_cmp += 1
         if mism:
             bad_corr = bad_corr or (c, mism, r)
+            # search for a concrete failing input: does the PROPOSAL itself deviate from the documented heuristic here?
+            if c["helper"] == "dt0_adaptive" and finite(o.get("final")):
+                ref = hnw_reference_final(c, o)
+                if ref is not None and abs(o["final"] - ref) > 1e-9 * abs(ref):
+                    failing.append((c, mism, r, ref))
 
     ck.hist["compared_with_model"] = {"n": n_cmp}
     ck.hist["tie_skipped"] = {"n": n_tie}
@@ -590,7 +619,13 @@ def main():
     if n_to:
         ck.notes.append(f"{n_to} solve(s) exceeded {timeout_s}s wall time (not counted as violations)")
 
-    if bad_corr is not None:
+    if failing:
+        c, mism, r, ref = failing[0]
+        ck.report("C18.dt0_adaptive.not-the-documented-heuristic",
+                  f"dt0_adaptive proposes {r.get('result')!r} but the two-stage "
+                  f"Hairer-Norsett-Wanner heuristic gives {ref!r} for y0={c['y0']}, t0={c['t0']}, field kind {c['fkind']} ({mism}); "
+                  f"{len(failing)} such inputs in this run", {"case": c, "mismatch": mism, "impl": r, "reference_final": ref})
+    elif bad_corr is not None:
         c, mism, r = bad_corr
         ck.report("C18.correspondence",
                   f"correspondence Model/Stepsize.v vs stepsize_initialisers.py ({c['helper']}) broken: {mism}",
